@@ -213,6 +213,9 @@ CaseResult run_md(const RunCtx &ctx, TapeReader &t, unsigned size_hint) {
 
     // ------------------------------------------------------------------ boxes (C13) / query points (C14)
     SplitMix qpr(t.bits(64));
+    static const unsigned ckw[] = {3, 2, 1, 1};
+    unsigned ctor_kind = (unsigned) t.weighted(ckw);
+    if (const std::string *xc = ctx.x("xctor")) ctor_kind = (unsigned) atoi(xc->c_str());
     std::vector<std::pair<Pt4, Pt4>> boxes;
     std::vector<std::string> box_kinds;
     if (c13 || mem) {
@@ -285,7 +288,7 @@ CaseResult run_md(const RunCtx &ctx, TapeReader &t, unsigned size_hint) {
     auto describe = [&]() {
         std::ostringstream d;
         d << "MultidimensionalPGMIndex<" << (int) D << "," << (sizeof(T) == 4 ? "uint32_t" : "uint64_t") << "," << Eps << "> n=" << pts.size()
-          << " points: " << rec.str() << "\n";
+          << " points: " << rec.str() << " ctor_kind=" << ctor_kind << "\n";
         d << "points=";
         for (size_t i = 0; i < pts.size() && i < 40; ++i) d << " " << pt_str<D>(pts[i]);
         if (pts.size() > 40) d << " ...";
@@ -297,6 +300,7 @@ CaseResult run_md(const RunCtx &ctx, TapeReader &t, unsigned size_hint) {
         res.desc = describe();
         if (pts.size() <= 20000) {
             res.xdata.emplace_back("xpoints", pts_to_text<D>(pts));
+            res.xdata.emplace_back("xctor", std::to_string(ctor_kind));
             if (!boxes.empty()) {
                 std::vector<Pt4> flat;
                 for (auto &b: boxes) flat.push_back(b.first), flat.push_back(b.second);
@@ -318,12 +322,36 @@ CaseResult run_md(const RunCtx &ctx, TapeReader &t, unsigned size_hint) {
         if (D > 1 && from_tuple<D>(*probe.begin()) != u) throw HarnessBug("Morton convention of the oracle does not match the library");
     }
 
-    std::vector<Tuple> tuples;
-    tuples.reserve(pts.size());
-    for (auto &p: pts) tuples.push_back(to_tuple<D, T>(p));
+    // The constructor is a template over the iterator: callers may pass tuples (or pairs) whose element types are narrower than T.
+    // ctor_kind (read from the tape before the execute gate): 0 = tuples of T, 1 = tuples of uint32_t into a 64-bit index,
+    // 2 = std::pair<uint32_t,uint32_t> (D == 2), 3 = tuples of uint16_t (coordinates permitting)
+    bool fits32 = true, fits16 = true;
+    for (auto &p: pts)
+        for (size_t d = 0; d < D; ++d) fits32 &= p[d] <= 0xFFFFFFFFull, fits16 &= p[d] <= 0xFFFFull;
     std::unique_ptr<Index> idx;
     try {
-        idx.reset(new Index(tuples.begin(), tuples.end()));
+        if (ctor_kind == 1 && sizeof(T) == 8 && fits32) {
+            std::vector<decltype(to_tuple<D, uint32_t>(pts[0]))> narrow;
+            for (auto &p: pts) narrow.push_back(to_tuple<D, uint32_t>(p));
+            idx.reset(new Index(narrow.begin(), narrow.end()));
+            res.label("ctor_from_uint32_tuples");
+        } else if (ctor_kind == 2 && D == 2 && fits32) {
+            std::vector<std::pair<uint32_t, uint32_t>> pairs;
+            for (auto &p: pts) pairs.emplace_back((uint32_t) p[0], (uint32_t) p[1]);
+            if constexpr (D == 2) idx.reset(new Index(pairs.begin(), pairs.end()));
+            res.label("ctor_from_uint32_pairs");
+        } else if (ctor_kind == 3 && fits16) {
+            std::vector<decltype(to_tuple<D, uint16_t>(pts[0]))> narrow;
+            for (auto &p: pts) narrow.push_back(to_tuple<D, uint16_t>(p));
+            idx.reset(new Index(narrow.begin(), narrow.end()));
+            res.label("ctor_from_uint16_tuples");
+        }
+        if (!idx) {
+            std::vector<Tuple> tuples;
+            tuples.reserve(pts.size());
+            for (auto &p: pts) tuples.push_back(to_tuple<D, T>(p));
+            idx.reset(new Index(tuples.begin(), tuples.end()));
+        }
     } catch (const std::exception &e) {
         res.fail(std::string("construction threw on in-domain input: ") + e.what());
         return res;
